@@ -234,3 +234,72 @@ Proof.
 Qed.
 Lemma millisecond_tag_is : tag_unit millisecond_tag = U_Second NS_Milli /\ unit_name (tag_unit millisecond_tag) = "Milliseconds"%str.
 Proof. split; vm_compute; reflexivity. Qed.
+
+(* ---------------------------------------------------------------- the property's main clause, end to end *)
+Local Open Scope R_scope.
+
+Definition chk_phys_pos t := negb (Qle_bool (phys (tag_unit t)) 0).
+Lemma all_chk_phys_pos : forall t, chk_phys_pos t = true.
+Proof. apply sweep1. vm_compute. reflexivity. Qed.
+Lemma phys_pos : forall t, 0 < Q2R (phys (tag_unit t)).
+Proof.
+  intros t. generalize (all_chk_phys_pos t). unfold chk_phys_pos. intros H.
+  destruct (Qle_bool (phys (tag_unit t)) 0) eqn:E; [discriminate|].
+  replace 0 with (Q2R 0) by (unfold Q2R; cbn; field). apply Qlt_Rlt. apply Qnot_le_lt. intros L.
+  apply Qle_bool_iff in L. congruence.
+Qed.
+
+Definition chk_ratio_phys a b :=
+  implb (convertible a b && negb (unitless_source a))
+        (Qeq_bool (spec_ratio (tag_unit a) (tag_unit b)) (phys (tag_unit a) / phys (tag_unit b))).
+Lemma all_chk_ratio_phys : forall a b, chk_ratio_phys a b = true.
+Proof. apply sweep2. vm_compute. reflexivity. Qed.
+
+(* A value that promised unit a and writes one finite number of moderate magnitude in unit a, wrapped as unit b:
+   the wrapper emits one number in unit b, same dimensions and flags, and
+     | emitted x size(b) - original x size(a) |  <=  (2^-52 + 2^-106) x | original x size(a) |. *)
+Theorem with_unit_preserves_quantity : forall (a b : tag) (x : f64) dims fl,
+  convertible a b = true -> unitless_source a = false ->
+  Binary.is_finite 53 1024 x = true -> bpow radix2 (-900) <= Rabs (R64 x) <= bpow radix2 900 ->
+  exists y : f64,
+    write (WithUnit (Script a (VMetric [OFloat x] (tag_unit a) dims fl)) b) = VMetric [OFloat y] (tag_unit b) dims fl /\
+    Rabs (R64 y * Q2R (phys (tag_unit b)) - R64 x * Q2R (phys (tag_unit a)))
+      <= (bpow radix2 (-52) + bpow radix2 (-106)) * Rabs (R64 x * Q2R (phys (tag_unit a))).
+Proof.
+  intros a b x dims fl H NU F M.
+  set (rho := Q2R (spec_ratio (tag_unit a) (tag_unit b))).
+  set (pa := Q2R (phys (tag_unit a))). set (pb := Q2R (phys (tag_unit b))).
+  pose proof (phys_pos a) as PA. pose proof (phys_pos b) as PB. fold pa in PA. fold pb in PB.
+  assert (RHO : rho = pa / pb).
+  { unfold rho, pa, pb. generalize (all_chk_ratio_phys a b). unfold chk_ratio_phys. rewrite H, NU. cbn [andb negb implb].
+    intros E. apply Qeq_bool_iff in E. apply Qeq_eqR in E. rewrite E. unfold Qdiv. rewrite Q2R_mult, Q2R_inv; [reflexivity|].
+    intros Z. apply Qeq_eqR in Z. fold pb in Z. replace (Q2R 0) with 0 in Z by (unfold Q2R; cbn; field). lra. }
+  pose proof (scaled_error_moderate a b H x F M) as E. cbv zeta in E. fold rho in E.
+  pose proof (right_unit_is_converted (Script a (VMetric [OFloat x] (tag_unit a) dims fl)) b [OFloat x] dims fl eq_refl) as W.
+  cbn [declared map] in W.
+  destruct (Req_dec rho 1) as [One|NotOne].
+  - (* the factor is 1: the number is untouched *)
+    exists x. rewrite W, (convert_identity a b H One). split; [reflexivity|].
+    assert (pa = pb) by (rewrite RHO in One; apply (Rmult_eq_compat_r pb) in One; field_simplify in One; lra).
+    rewrite H0. replace (R64 x * pb - R64 x * pb) with 0 by ring. rewrite Rabs_R0.
+    apply Rmult_le_pos; [|apply Rabs_pos]. pose proof (bpow_gt_0 radix2 (-52)). pose proof (bpow_gt_0 radix2 (-106)). lra.
+  - exists (f64_mul x (ratio_f64 a b)). rewrite W, (convert_scales a b H NotOne). split; [reflexivity|].
+    replace (R64 (f64_mul x (ratio_f64 a b)) * pb - R64 x * pa) with ((R64 (f64_mul x (ratio_f64 a b)) - R64 x * rho) * pb)
+      by (rewrite RHO; field; lra).
+    replace (R64 x * pa) with ((R64 x * rho) * pb) by (rewrite RHO; field; lra).
+    rewrite !Rabs_mult. rewrite (Rabs_pos_eq pb) by lra. rewrite <- Rabs_mult, <- Rmult_assoc.
+    apply Rmult_le_compat_r; [lra|exact E].
+Qed.
+
+(* declaring a unit on a unitless value keeps every observation, of every kind, bit for bit *)
+Theorem declare_unit_keeps_observations : forall (a b : tag) os dims fl,
+  convertible a b = true -> unitless_source a = true ->
+  write (WithUnit (Script a (VMetric os (tag_unit a) dims fl)) b) = VMetric os (tag_unit b) dims fl.
+Proof.
+  intros a b os dims fl H U.
+  pose proof (right_unit_is_converted (Script a (VMetric os (tag_unit a) dims fl)) b os dims fl eq_refl) as W.
+  cbn [declared] in W. rewrite W. f_equal.
+  assert (One : Q2R (spec_ratio (tag_unit a) (tag_unit b)) = 1).
+  { rewrite <- (Qeq_eqR _ _ (ratio_is_spec a b H)). rewrite (Qeq_eqR _ _ (declare_keeps_number a b H U)). unfold Q2R. cbn. field. }
+  clear W. induction os as [|o os IH]; [reflexivity|]. cbn [map]. rewrite (convert_identity a b H One), IH. reflexivity.
+Qed.
